@@ -68,7 +68,13 @@ type Scenario struct {
 	// LateKey: party 2 checks in (publishes its encryption key) only in the block after the eon
 	// started, so that the keyper under test queues its evaluations in two rows with the same
 	// description ("poly eval (eon=N)"): one when it starts dealing, one when the key arrives
-	LateKey   bool   `json:"late_key,omitempty"`
+	LateKey bool `json:"late_key,omitempty"`
+	// Step: every transaction of the two real keypers (the one under test included) lands in a
+	// block of its own and the keyper under test processes one block per loop iteration, so that
+	// the cache-versus-fresh-load comparison is made after every single block transaction - also
+	// after a block whose only DKG event is the keyper's own commitment.  Run without crashes only
+	// (delays of a crashed run would move messages across phase boundaries of so fine a chain).
+	Step      bool   `json:"step,omitempty"`
 	SchedSeed uint64 `json:"sched_seed"`
 }
 
@@ -282,6 +288,15 @@ func execute(c Case, e *env) (*trace, error) {
 			if from != rig.Parties[1].Name {
 				return
 			}
+			if rig.Chain.OpenHeight() == lastOwn {
+				rig.Chain.NextBlock()
+			}
+			lastOwn = rig.Chain.OpenHeight()
+		}
+	}
+	if c.S.Step {
+		lastOwn := int64(0) // open height in which a keyper last broadcast
+		rig.Chain.OnBroadcast = func(string, []byte) {
 			if rig.Chain.OpenHeight() == lastOwn {
 				rig.Chain.NextBlock()
 			}
@@ -612,7 +627,18 @@ func execute(c Case, e *env) (*trace, error) {
 			ord = []int{1, 0}
 		}
 		for _, i := range ord {
-			if i == kut {
+			if i == kut && c.S.Step {
+				for guard := 0; guard < 60; guard++ {
+					before, _ := rig.SyncPos(kut)
+					rig.Parties[kut].Cl.Cap = before + 3
+					runKut(round)
+					after, _ := rig.SyncPos(kut)
+					if after == before || after+2 >= rig.Chain.Height() {
+						break
+					}
+				}
+				rig.Parties[kut].Cl.Cap = 0
+			} else if i == kut {
 				runKut(round)
 			} else if res := rig.Iterate(i, uint64(round), nil); !res.OK() {
 				tr.errs = append(tr.errs, fmt.Sprintf("party %d round %d: %s", i, round, res.Err))
@@ -1261,7 +1287,7 @@ func main() {
 	run := vh.Start("Verif.Corr.C08", 12)
 	run.SetPreamble("From Verif Require Import Model.DKGPure Model.DKGDriver Model.Outbox Corr.C07 Corr.C08.\nOpen Scope N_scope.")
 	defer run.Finish()
-	run.Rule = "a complete DKG run of three keypers (one Byzantine party that makes the keyper under test accuse, be accused and apologise) on real keyper stacks, six schedules (plain, fork, second config, excluded-later: a restarted key generation of a set with the keyper under test during which a newer set without it is accepted, late-key: party 2's encryption key arrives a block after the eon started so that two outbox rows carry the same description, split: every transaction of the other honest keyper in a block of its own, so that blocks carry a single PolyEval / Accusation / Apology); after every loop iteration of the keyper under test its cache is compared with a fresh load of a copy of its database; per case one or two crash points of the keyper under test: before database message k, after the commit carried by message k was applied, before / after its b-th broadcast reached shuttermint; quick: every database message next to a begin/commit, every 9th other message, every broadcast; thorough: every database message, every broadcast and 2000 sampled pairs; non-trivial = the crash happened; distinct by the JSON rendering of the case"
+	run.Rule = "a complete DKG run of three keypers (one Byzantine party that makes the keyper under test accuse, be accused and apologise) on real keyper stacks, seven schedules (plain, fork, second config, excluded-later: a restarted key generation of a set with the keyper under test during which a newer set without it is accepted, late-key: party 2's encryption key arrives a block after the eon started so that two outbox rows carry the same description, step: every keyper transaction alone in its block, the keyper under test processes one block per iteration, crash-free only, split: every transaction of the other honest keyper in a block of its own, so that blocks carry a single PolyEval / Accusation / Apology); after every loop iteration of the keyper under test its cache is compared with a fresh load of a copy of its database; per case one or two crash points of the keyper under test: before database message k, after the commit carried by message k was applied, before / after its b-th broadcast reached shuttermint; quick: every database message next to a begin/commit, every 9th other message, every broadcast; thorough: every database message, every broadcast and 2000 sampled pairs; non-trivial = the crash happened; distinct by the JSON rendering of the case"
 
 	scenarios := []Scenario{
 		{Name: "dkg", PhaseLen: 7, Byzantine: true, SchedSeed: 11},
@@ -1270,6 +1296,7 @@ func main() {
 		{Name: "dkg", PhaseLen: 9, Byzantine: true, Split: true, SchedSeed: 14},
 		{Name: "excluded-later", PhaseLen: 7, SchedSeed: 15},
 		{Name: "dkg", PhaseLen: 7, Byzantine: true, LateKey: true, SchedSeed: 16},
+		{Name: "dkg", PhaseLen: 12, Byzantine: true, Step: true, SchedSeed: 17},
 	}
 	var cases []Case
 	if run.Replay != "" {
@@ -1345,6 +1372,9 @@ func main() {
 			every = 3
 		}
 		for si, s := range scenarios {
+			if s.Step {
+				continue // crash-free only
+			}
 			tw := twins[scenarioKey(s)]
 			ev := every
 			if si > 0 && !run.Thorough {
